@@ -419,6 +419,37 @@ def fold_bool(c):
     return c
 
 
+_NT_SPECS = {}
+
+
+def namedtuple_spec(ctx, name):
+    """(field names, default terms) when `name` is bound at module level to namedtuple("...", fields[, defaults=(literals)]), else None"""
+    key = (id(ctx.repo), ctx.modname, name)
+    if key not in _NT_SPECS:
+        spec = None
+        g = ctx.mod.globals.get(name)
+        if isinstance(g, ast.Call) and ((isinstance(g.func, ast.Name) and g.func.id == "namedtuple") or
+                                        (isinstance(g.func, ast.Attribute) and g.func.attr == "namedtuple")) and len(g.args) >= 2:
+            fn_ = g.args[1]
+            fields = None
+            if isinstance(fn_, ast.Constant) and isinstance(fn_.value, str):
+                fields = fn_.value.replace(",", " ").split()
+            elif isinstance(fn_, (ast.Tuple, ast.List)) and all(isinstance(e, ast.Constant) and isinstance(e.value, str) for e in fn_.elts):
+                fields = [e.value for e in fn_.elts]
+            dfl = []
+            ok = fields is not None
+            for k in g.keywords:
+                if k.arg == "defaults" and isinstance(k.value, (ast.Tuple, ast.List)) and \
+                        all(isinstance(e, ast.Constant) and isinstance(e.value, (int, float)) and not isinstance(e.value, bool) for e in k.value.elts):
+                    dfl = [T.num(Fraction(str(e.value))) for e in k.value.elts]
+                elif k.arg in ("defaults", "rename", "module"):
+                    ok = ok and k.arg == "module"
+            if ok:
+                spec = (fields, dfl)
+        _NT_SPECS[key] = spec
+    return _NT_SPECS[key]
+
+
 def const_value(t):
     """value of a closed constant built from numbers and pi with + * ** (None otherwise)"""
     import math
@@ -558,6 +589,8 @@ def iter_items(it):
     literals), or None"""
     if it[0] in ("tuple", "list", "gen"):
         return list(it[1:])
+    if it[0] == "rec":
+        return list(it[2:])
     if it[0] == "call" and it[1] == "range" and all(a[0] == "num" and a[1].denominator == 1 for a in it[2:]):
         return [T.num(i) for i in range(*[int(a[1]) for a in it[2:]])]
     if it[0] == "call" and it[1] in ("zip", "enumerate", "reversed"):
@@ -800,6 +833,8 @@ def assign(ctx, target, v, env):
         env[target.id] = v
     elif isinstance(target, (ast.Tuple, ast.List)):
         n = len(target.elts)
+        if v[0] == "rec":
+            v = ("tuple",) + tuple(v[2:])
         if v[0] in ("tuple", "list") and len(v) - 1 == n:
             for e, x in zip(target.elts, v[1:]):
                 assign(ctx, e, x, env)
@@ -953,6 +988,16 @@ def ev(ctx, node, env):
             return T.call("slice", base, *parts)
         idx = ev(ctx, node.slice, env)
         return subscript(base, idx)
+    if isinstance(node, ast.Attribute) and not (isinstance(node.value, ast.Name) and node.value.id == "self"):
+        rv_ = None
+        if isinstance(node.value, ast.Name) and env.get(node.value.id, ("?",))[0] == "rec":
+            rv_ = env[node.value.id]
+        elif isinstance(node.value, ast.Call):
+            rv_ = ev(ctx, node.value, env)
+            if rv_[0] != "rec":
+                rv_ = None
+        if rv_ is not None and node.attr in rv_[1]:
+            return rv_[2 + rv_[1].index(node.attr)]
     if isinstance(node, ast.Attribute):
         if isinstance(node.value, ast.Name) and node.value.id == "self":
             k = "self." + node.attr
@@ -1184,6 +1229,8 @@ def binop(ctx, op, a, b):
             return T.num(Fraction(a[1] // b[1]))
         if b == T.ONE:
             return T.call("floor", a)
+        if kb == "num" and b[1] != 0:
+            return T.call("floor", T.div(a, b))          # a // k  ==  floor(a / k): one normal form for INT(a / k) and a // k
         return T.call("floordiv", a, b)
     return T.call(k.__name__, a, b)
 
@@ -1270,6 +1317,18 @@ def ev_call(ctx, node, env):
     # ---- plain names
     if isinstance(f, ast.Name):
         name = f.id
+        nt = namedtuple_spec(ctx, name) if name not in env else None
+        if nt is not None and not star_kw and not any(a_[0] == "call" and a_[1] == "*" for a_ in args):
+            # NAME = namedtuple("NAME", fields[, defaults=...]) at module level: a record of named values (read by attribute, index, unpacking)
+            fields, dfl = nt
+            vals = list(args)
+            if len(vals) <= len(fields) and all(k_ in fields for k_ in kws):
+                slots = dict(zip(fields, vals))
+                slots.update(kws)
+                for fld, d_ in zip(fields[len(fields) - len(dfl):], dfl):
+                    slots.setdefault(fld, d_)
+                if all(fld in slots for fld in fields):
+                    return ("rec", tuple(fields)) + tuple(slots[fld] for fld in fields)
         if name == "next" and name not in env and len(node.args) == 2 and isinstance(node.args[0], ast.GeneratorExp) \
                 and len(node.args[0].generators) == 1 and getattr(ctx, "unroll", 0):
             # next((e for x in literal if c), default)  ==  c1 ? e1 : (c2 ? e2 : ... default)
@@ -1441,6 +1500,8 @@ def ev_call(ctx, node, env):
 
 
 def subscript(base, idx, _depth=4):
+    if base[0] == "rec":
+        base = ("tuple",) + tuple(base[2:])
     if base[0] in ("tuple", "list") and idx[0] == "num" and idx[1].denominator == 1:
         i = int(idx[1])
         if -len(base) + 1 <= i < len(base) - 1:
